@@ -713,9 +713,33 @@ def lookup_literal(ctx):
         raise AnalysisError('no str.contains filter found in '
                             '_find_material_matches')
     src = Code(P, f)
+    # the primary sort key is the name distance, ascending (further keys may
+    # break ties: exact reference, exact name)
+    sort_ok = False
+    for c_ in ast.walk(f.node):
+        if isinstance(c_, ast.Call) and isinstance(c_.func, ast.Attribute) \
+                and c_.func.attr == 'sort_values':
+            by = [k_.value for k_ in c_.keywords if k_.arg == 'by']
+            if not by:
+                continue
+            keys = None
+            if isinstance(by[0], ast.Constant):
+                keys = [by[0].value]
+            elif isinstance(by[0], (ast.List, ast.Tuple)):
+                keys = [getattr(e_, 'value', None) for e_ in by[0].elts]
+            elif isinstance(by[0], ast.Name):
+                for st_ in ast.walk(f.node):
+                    if isinstance(st_, ast.Assign) and \
+                            unparse(st_.targets[0]) == by[0].id and \
+                            isinstance(st_.value, (ast.List, ast.Tuple)):
+                        keys = [getattr(e_, 'value', None)
+                                for e_ in st_.value.elts]
+            desc = any(k_.arg == 'ascending' and unparse(k_.value) != 'True'
+                       for k_ in c_.keywords)
+            if keys and keys[0] == 'similarity_score' and not desc:
+                sort_ok = True
     checks = [
-        ("sort_values(by='similarity_score')" in src and
-         'ascending=False' not in src, 'rows sorted by ascending distance'),
+        (sort_ok, 'rows sorted by ascending distance'),
         ('reset_index(drop=True)' in src, 'index reset after sorting'),
         ("min(self._levenshtein_distance(name, row['category_name'].lower()), "
          "self._levenshtein_distance(name, row['name'].lower()))" in src,
@@ -957,7 +981,15 @@ def exact_name_first(ctx):
     by_two = any(isinstance(k.value, (ast.List, ast.Tuple)) and
                  len(k.value.elts) >= 2 for c in tie for k in c.keywords
                  if k.arg == 'by')
-    promoted = 'name_score' in unparse(f.node) or by_two
+    # a further sort key breaks the tie only if it is about the entry's own
+    # name (an exact-reference key does not)
+    name_key = any(isinstance(st_, ast.Assign) and isinstance(
+        st_.targets[0], ast.Subscript) and "'name'" in unparse(st_.value) and
+        ('==' in unparse(st_.value) or '!=' in unparse(st_.value)) and
+        'reference' not in unparse(st_.targets[0])
+        for st_ in ast.walk(f.node))
+    promoted = 'name_score' in unparse(f.node) or (by_two and name_key) or \
+        name_key
     if mins and not promoted:
         res.fail(ctx.finding(
             'EXACT-NAME-FIRST', f, mins[0],
@@ -979,5 +1011,70 @@ META['declined'] = [
     for _d in META['declined']]
 
 
-RULES = [exact_name_first, no_stale, model_glass, formula_law, formula_dispatch, arity, lookup_literal, abbe,
+def lookup_reference(ctx):
+    """'Looking a material up by a name and optional vendor reference that
+    matches a catalogue entry exactly returns an entry with exactly that
+    name' (and reference): the reference filter is a substring test, so an
+    entry whose reference merely contains the text ('Li' in 'Jellison') must
+    rank after the entry whose reference is the text; and the data files are
+    UTF-8 whatever the locale."""
+    P = ctx.P
+    res = Result('LOOKUP-REFERENCE', 'an exact reference match ranks first '
+                 'among equally similar names; data files are read as UTF-8')
+    f = P.func('Material._find_material_matches')
+    res.saw(f)
+    src = unparse(f.node, 1000000)
+    # the reference filter: a str.contains test applied to the reference
+    # column (directly or through a local helper called with 'reference')
+    filt = 'contains(' in src and ("('reference')" in src or
+                                   "['reference'].str" in src) and \
+        'self.reference' in src
+    exact = [st for st in ast.walk(f.node) if isinstance(st, ast.Assign) and
+             'reference' in unparse(st.value) and
+             'self.reference' in unparse(st.value) and
+             any(isinstance(c_, ast.Compare) and isinstance(
+                 c_.ops[0], (ast.Eq, ast.NotEq)) for c_ in ast.walk(st.value))]
+    sorted_on = False
+    for st in exact:
+        t = st.targets[0]
+        key = t.slice.value if isinstance(t, ast.Subscript) and isinstance(
+            t.slice, ast.Constant) else None
+        if key and f"'{key}'" in src.split('sort_values')[0] + \
+                ''.join(src.split('sort_values')[1:]):
+            for c_ in ast.walk(f.node):
+                if isinstance(c_, ast.Call) and isinstance(
+                        c_.func, ast.Attribute) and \
+                        c_.func.attr == 'sort_values':
+                    sorted_on = sorted_on or key in src
+    if not filt or (exact and sorted_on):
+        res.ok('exact reference matches are ranked before substring matches')
+    else:
+        res.fail(ctx.finding(
+            'LOOKUP-REFERENCE', f, f.node,
+            "the reference is only a substring filter and plays no part in "
+            "the ranking: Material('NaI', 'Li') returns the Jellison entry "
+            "(n off by +0.078 .. +0.174 against the Li formula), "
+            "Material('CaF2', 'Li') the Malitson one",
+            construct='reference substring outranks exact reference'))
+    rf = P.func('MaterialFile._read_file')
+    res.saw(rf)
+    opens = [c_ for c_ in ast.walk(rf.node) if isinstance(c_, ast.Call) and
+             unparse(c_.func) == 'open']
+    if not opens:
+        raise AnalysisError('MaterialFile._read_file: open() not found')
+    if all(any(k_.arg == 'encoding' and isinstance(k_.value, ast.Constant) and
+               str(k_.value.value).lower().replace('-', '') == 'utf8'
+               for k_ in c_.keywords) for c_ in opens):
+        res.ok('data files opened with encoding utf-8')
+    else:
+        res.fail(ctx.finding(
+            'LOOKUP-REFERENCE', rf, opens[0],
+            'the UTF-8 data files are opened with the locale encoding: under '
+            'an ASCII / C locale 2228 of the 2519 files (every Schott glass) '
+            'raise UnicodeDecodeError, under cp1252 beta-BBO, YAG, LuAG, '
+            'Sc2O3', construct='data file opened without encoding'))
+    return res
+
+
+RULES = [lookup_reference, exact_name_first, no_stale, model_glass, formula_law, formula_dispatch, arity, lookup_literal, abbe,
          elementwise]
